@@ -280,16 +280,46 @@ def nest_obj(case, obj):
                        silence_level=2)
 
 
-def shuffle_perms(seed, T, N):
-    """the permutations `numpy.random.shuffle` applies to N successive float arrays of
-    length T after `numpy.random.seed(seed)` (the draws depend on the length only)"""
+def _mt_raw(state, L):
+    """the next L raw 32-bit outputs of the legacy generator in the given state"""
+    bg = np.random.MT19937()
+    bg.state = {"bit_generator": "MT19937", "state": {"key": state[1], "pos": state[2]}}
+    return [int(x) for x in bg.random_raw(L)]
+
+
+def raw_stream(seed, L):
+    """the raw 32-bit output stream of `numpy.random` after `numpy.random.seed(seed)`"""
     np.random.seed(seed)
-    perms = []
+    return _mt_raw(np.random.get_state(), L)
+
+
+def draws_consumed(ds, T, N):
+    """number of raw outputs N successive shuffles of arrays of length T take from the stream
+    (masked rejection sampling: a draw is used up whether accepted or not).  Only used to cut
+    the recorded stream to the length to send; the model decides on its own how many it takes."""
+    k = 0
     for _ in range(N):
-        p = np.arange(T, dtype=float)
-        np.random.shuffle(p)
-        perms.append([int(x) for x in p])
-    return perms
+        for i in range(T - 1, 0, -1):
+            mask = (1 << i.bit_length()) - 1
+            while ds[k] & mask > i:
+                k += 1
+            k += 1
+    return k
+
+
+def shuffle_request(seed, T, N):
+    """(token for the model, raw output the generator must produce next after the call)"""
+    L = 64 + 6 * T * N
+    while True:
+        ds = raw_stream(seed, L)
+        try:
+            k = draws_consumed(ds, T, N)
+            if k < L:
+                break
+        except IndexError:
+            pass
+        L *= 2
+    return "shr=" + (",".join(map(str, ds[:k + 1])) or "-"), ds[k]
 
 
 def ints_of(s):
@@ -558,6 +588,7 @@ def check_shuffled(ctx, case, obj, view, tok, out, upto):
     """shuffled_anomaly(): shape of anomaly(), every column a rearrangement of the column"""
     with quiet():
         an = np.asarray(obj.anomaly())
+    out = out.split("@")[0]
     rows = [] if out.split(":", 1)[1] == "-" else out.split(":", 1)[1].split(";")
     shape = tuple(int(x) for x in out.split(":", 1)[0].split("x"))
     ok = shape == an.shape
@@ -683,9 +714,16 @@ def run_case(ctx, case, exact, oracle=True):
         out = do_op(obj, tok, case)
         outs.append(out)
         if tok.startswith("sh:"):
+            # round 4: the model gets the raw 32-bit output stream of the generator (exactly the
+            # draws the call uses up plus one) and runs the masked rejection sampling and the
+            # Fisher-Yates loops itself; "@1" = the generator of the real call stands exactly
+            # where the model says (its next raw output is the one draw left over)
             T, N = len(view["time"]), len(view["lat"])
-            concrete.append("sh=" + ";".join(",".join(map(str, p))
-                                             for p in shuffle_perms(int(tok[3:]), T, N)))
+            nxt = _mt_raw(np.random.get_state(), 1)[0]
+            req, expect = shuffle_request(int(tok[3:]), T, N)
+            concrete.append(req)
+            if not out.startswith("raise:"):
+                outs[-1] = out + ("@1" if nxt == expect else "@generator-elsewhere")
         else:
             concrete.append(tok)
         if not oracle:
@@ -1110,8 +1148,10 @@ def run(ctx):
         "float32-exact values: modelled as their mathematical operations on rationals",
         "functools.lru_cache keyed by (id, _mut_window): modelled as an association list with "
         "arbitrary eviction",
-        "numpy.random.shuffle applies a permutation that depends only on the generator state and the "
-        "length (the harness replays it on range(T) and sends the permutation to the model)",
+        "numpy.random.shuffle = masked rejection sampling (random_interval) + Fisher-Yates on the raw "
+        "32-bit outputs of MT19937 (modelled; the harness records the raw stream after "
+        "numpy.random.seed and the model's result, incl. the number of outputs used up, is compared "
+        "exactly with the real call on every run); MT19937 itself is not modelled",
         "CPython's int / int true division returns the double nearest to the exact quotient "
         "(modelled by rn53; that int(T / time_cycle) then equals T // time_cycle for T < 2^53 is the "
         "theorem rangeYearsF_eq, and the model is compared with the source expression on every run)",
